@@ -1,0 +1,14 @@
+//go:build verif
+
+package NoKV
+
+import "sync/atomic"
+
+// VerifQueueThrottle toggles the L0 write throttle through the LSM callback path.
+func (db *DB) VerifQueueThrottle(on bool) { db.lsm.VerifQueueThrottle(on) }
+
+// VerifQueueBlocked reports the DB-level throttle flag.
+func (db *DB) VerifQueueBlocked() bool { return atomic.LoadInt32(&db.blockWrites) == 1 }
+
+// VerifQueuePauseCompaction stops background compaction cycles (and their AdjustThrottle).
+func (db *DB) VerifQueuePauseCompaction() { db.lsm.VerifQueuePauseCompaction() }
